@@ -15,6 +15,12 @@ where
         return Ok(List::empty());
     }
 
+    // The tree can physically hold more than `N` elements (`N` need not be a power of two, nor a
+    // multiple of the packing factor), so the length has to be checked against `N` itself.
+    if n > N::to_usize() {
+        return Err(Error::BuilderFull);
+    }
+
     // Keep a list of nodes at the current level and their multiplicity.
     // In the common case where `n` is not divisible by the packing factor then part of the
     // tree will be slightly different from the bulk repeated part.
